@@ -884,3 +884,44 @@ def flw19_log_size_accounted(ctx):
         ctx.check('FLW-19', '%s|log-size-accounted' % topname, found,
                   'the accounted log size grows by the number of bytes the log write reported, with '
                   'the ingestion lock held', where(site))
+
+
+# ------------------------------------------------------------------------------------ ORD-15
+def ord15_store_not_conditional_on_presence(ctx):
+    ctx.rule('ORD-15', 'files are (re)written unconditionally: no BlobWriter::store depends on a '
+                       'BlobWriter::exists test of the target. Partition ids and paths are reused after a '
+                       'crash (the id counter is rebuilt from the persisted catalogue), so "already '
+                       'there" may be the orphan of a flush that never committed', floor=3)
+    P = ctx.P
+    n = 0
+    for b in P.fn_bodies():
+        if b.crate != 'locustdb' or not b.name.startswith('disk_store::storage::'):
+            continue
+        stores = [(blk, t) for blk, t in b.calls() if not blk.cleanup and blobwriter_method(t.func) == 'store']
+        if not stores:
+            continue
+        exists = [(blk, t) for blk, t in b.calls() if not blk.cleanup and blobwriter_method(t.func) == 'exists']
+        du = DefUse(b)
+        cfg = CFG(b)
+        guards = []     # (switch term, [targets])
+        for (eb, et) in exists:
+            fw = du.forward(base_local(et.dest))
+            for l in fw:
+                for (b2, k2, o2) in du.uses.get(l, []):
+                    if k2 == 'term' and o2.kind == 'switch' and (b.local_type(l) or '') in ('bool', 'isize', 'u8'):
+                        guards.append((o2, [tg for (_v, tg) in o2.targets]))
+                    if k2 == 'term' and o2.kind == 'switch' and (b.local_type(l) or '') == 'bool':
+                        pass
+        for i, (sb, st) in enumerate(stores):
+            n += 1
+            dep = None
+            for (sw, tgs) in guards:
+                doms = [tg for tg in tgs if cfg.dominates(tg, sb.id)]
+                if doms and len(set(doms)) < len(set(tgs)):
+                    dep = sw
+            ctx.check('ORD-15', '%s|store%s|unconditional' % (b.name, '' if i == 0 else '#%d' % (i + 1)), dep is None,
+                      'BlobWriter::store is %s' % ('not guarded by a presence test' if dep is None else
+                                                   'skipped when BlobWriter::exists reports the file: a stale file '
+                                                   'under a reused id survives while the catalogue records the new content'),
+                      where(st))
+    ctx.require(n >= 3, 'ORD-15: fewer than 3 BlobWriter::store sites in Storage (%d)' % n)
